@@ -31,7 +31,7 @@ Fixpoint tree_eqb (a b : tree) : bool :=
   end.
 
 (** positions: child indices from the root of a tree *)
-Definition pos := list nat.
+Notation pos := (list nat) (only parsing).
 
 Fixpoint subtree_at (t : tree) (p : pos) : option tree :=
   match p with
